@@ -87,7 +87,7 @@ def units(tier, seed):
         for b in range(8):
             out.append({"kind": "flat", "n": 4, "block": b, "nblocks": 8, "name": f"flat<=4#{b}/8"})
         for b in range(4):
-            out.append({"kind": "flat", "n": 5, "block": (seed % 8) * 4 + b, "nblocks": 32, "name": f"flat=5#{(seed % 8) * 4 + b}/32"})
+            out.append({"kind": "flat", "n": 5, "block": (seed % 64) * 4 + b, "nblocks": 256, "name": f"flat=5#{(seed % 64) * 4 + b}/256"})
     else:
         for b in range(64):
             out.append({"kind": "flat", "n": 5, "block": b, "nblocks": 64, "name": f"flat<=5#{b}/64"})
@@ -284,7 +284,7 @@ def _mk(t):
 
 TOKENS = ["a", "b", "x", "t", "(", ")", "|", "+", "*", "?", "{", "}", "1", "2", ","]
 # "wide" expressions: sequences of these items (NFAs with two-digit node numbers, many subset states)
-FLAT_ITEMS = ["a", "b", "c?", "a*", "b+", "a{2}", "c{2,}", "(a | b)", "(b c)?", "(a b | c){1,2}", "a{1,3}", "(c b){0,4}"]
+FLAT_ITEMS = ["a", "b", "c", "c?", "a*", "b*", "b+", "a{2}", "c{2,}", "(a | b)", "(b c)?", "(a b | c){1,2}", "a{1,3}", "(c b){0,4}"]
 
 
 def run_unit(u):
